@@ -152,6 +152,16 @@ pub fn verify(input: &Value) -> Out {
                 cs[flip - 1] = if cs[flip - 1] == '0' { '1' } else { '0' };
                 h = cs.into_iter().collect();
             }
+            // "upper": the first hex letter at or after this position (1-based) in upper case - a
+            // single-byte corruption of the recorded value that a case-insensitive comparison misses
+            let upper = l.get("upper").and_then(|u| u.as_u64()).unwrap_or(0) as usize;
+            if upper >= 1 {
+                let mut cs: Vec<char> = h.chars().collect();
+                if let Some(i) = (upper - 1..cs.len()).find(|i| cs[*i].is_ascii_lowercase()) {
+                    cs[i] = cs[i].to_ascii_uppercase();
+                }
+                h = cs.into_iter().collect();
+            }
             text.extend_from_slice(format!("{} (", ALGS[a]).as_bytes());
             text.extend_from_slice(&name);
             text.extend_from_slice(format!(") = {}\n", h).as_bytes());
